@@ -130,6 +130,19 @@ class Surface:
         return keys
 
 
+def walk_binds(p):
+    if not isinstance(p, dict):
+        return
+    if p.get("k") == "bind":
+        yield p
+    for q in p.get("pats") or []:
+        yield from walk_binds(q)
+    if p.get("pat"):
+        yield from walk_binds(p["pat"])
+    for f in p.get("fields") or []:
+        yield from walk_binds(f.get("pat"))
+
+
 def is_opt_enum_ty(F, ty):
     kind, inner = G.unwrap_ty(ty)
     a = F.adts.get(inner)
@@ -249,6 +262,35 @@ def j2(rep, F, S):
             rep.add(Finding("J2", sb["path"], "hand-keys",
                             "%s writes %s and its deserialisation helper reads %s" % (G.short(t), sorted(wk), sorted(rk)),
                             sb["file"], sb["line"]))
+        # each key is written from the component of the same name (possibly normalised through locals)
+        lets = {}
+        for n in walk(sb["body"]):
+            if n.get("k") == "let" and n["pat"].get("k") == "bind" and n.get("init") is not None:
+                lets[n["pat"]["id"]] = n["init"]
+            if n.get("k") == "letx":
+                for q in walk_binds(n["pat"]):
+                    lets[q["id"]] = n["init"]
+
+        def self_fields(e, depth=0):
+            out = set()
+            for x in walk(e):
+                if x.get("k") == "field" and peel(x["e"]).get("name") == "self":
+                    out.add(x["name"])
+                if x.get("k") == "local" and x.get("id") in lets and depth < 5:
+                    out |= self_fields(lets[x["id"]], depth + 1)
+            return out
+        for n in walk(sb["body"]):
+            if n.get("k") == "mcall" and n.get("m") == "serialize_field":
+                a = n.get("args") or []
+                key = lit_val(a[0]) if a else None
+                if isinstance(key, str) and len(a) > 1:
+                    r["instances"] += 1
+                    src = self_fields(a[1])
+                    if src != {key}:
+                        rep.add(Finding("J2", sb["path"], "hand-value:%s" % key,
+                                        "%s writes JSON key \"%s\" from component(s) %s: the value read back under "
+                                        "that key is not the component that was written"
+                                        % (G.short(t), key, sorted(src)), sb["file"], n.get("ln")))
         # every helper field reaches the constructed value
         used = set()
         for n in walk(db["body"]):
